@@ -183,6 +183,19 @@ fn build_dir(job: &Value, scratch: &Path) -> std::io::Result<(PathBuf, PathBuf)>
             let f = std::fs::read_dir(&proj).ok().and_then(|rd| rd.flatten().map(|e| e.path()).find(|p| p.extension().map(|x| x == "ctehexml").unwrap_or(false)));
             f.unwrap_or_else(|| proj.join("proyecto.ctehexml"))
         }
+        // a path that goes through a symbolic link and then "..": for the operating system
+        // `trabajo/enlace/..` is the parent of the link's TARGET (almacen), not `trabajo`
+        "symlink_dotdot" => {
+            let store = root.join("almacen");
+            let _ = std::fs::create_dir_all(store.join("sub"));
+            let _ = std::os::unix::fs::symlink(&proj, store.join("proyecto_enlazado"));
+            let work = root.join("trabajo");
+            let _ = std::fs::create_dir_all(&work);
+            let _ = std::os::unix::fs::symlink(store.join("sub"), work.join("enlace"));
+            work.join("enlace").join("..").join("proyecto_enlazado")
+        }
+        // repeated separators and "." components
+        "redundant" => PathBuf::from(format!("{}//./{}/.", root.display(), pname)),
         "symlink" => {
             let l = root.join("enlace");
             let _ = std::os::unix::fs::symlink(&proj, &l);
